@@ -56,6 +56,7 @@ def case(draw):
         "input_type": draw(st.sampled_from(["u10", "u10", "friction_velocity", "ustar"])),   # "ustar" is the documented alias
         "scale": draw(st.sampled_from([2.0, 0.5, 3.7, 10.0])),
         "pick": draw(st.integers(0, n - 1)),
+        "wdir_convention": draw(st.sampled_from(["0_360", "0_360", "pm180", "plus_360"])),
         "gen_params": {k: draw(fl(0.5, 1.5)) for k in GEN_DEFAULTS} if draw(st.integers(0, 2)) == 0 else {},
         "dis_params": {k: draw(fl(0.5, 1.5)) for k in DIS_PARAMS[dk]} if draw(st.integers(0, 2)) == 0 else {},
         "viscous": draw(st.sampled_from([0.0, 0.0, 0.1])),
@@ -124,6 +125,12 @@ def run(c):
     if ints and c["input_type"] == "u10":
         speed = speed.astype("int64")
     wdir_v = rep(c["wdir"])
+    # the same wind directions written in another convention: (-180,180], or one turn further on
+    conv = c.get("wdir_convention", "0_360")
+    if conv == "pm180":
+        wdir_v = [w - 360.0 if w > 180.0 else w for w in wdir_v]
+    elif conv == "plus_360":
+        wdir_v = [w + 360.0 for w in wdir_v]
     wdir = W.da(wdir_v, spec)
     z0 = W.da(np.exp(rep(c["log_z0"])), spec)
     it = c["input_type"]
@@ -134,6 +141,9 @@ def run(c):
         classes.append("integer_stored_density_and_u10")
     if c.get("dir_jitter"):
         classes.append("non_uniform_direction_grid")
+    classes.append("wind_direction_convention_" + conv)
+    if c["nf"] == c["nd"]:
+        classes.append("square_spectrum_nf_equals_nd")
 
     R = np.asarray(gen.rate(spec, speed, wdir, roughness_length=z0, wind_speed_input_type=it).values)
     require(R.shape == Eb.shape and np.isfinite(R).all(), "wind_input_finite", f"shape={R.shape}")
